@@ -312,6 +312,8 @@ def run(ctx):
     check_syncdone(ctx, f)
     # parse_syncinfo
     check_syncinfo(ctx, f)
+    # OPTIONAL components absent
+    check_optional_absent(ctx, f)
     # the control envelope both ways (shared rule functions)
     from props import C02, C03
     C02.check_envelope(ctx, f, 'Z')
@@ -331,9 +333,16 @@ def run(ctx):
     B, outs = parse_paths('<ldap3::exop_impl::passmod::PasswordModifyResp as ldap3::exop_impl::ExopParser>::parse')
     for o in outs:
         g = dict(o.val[2]).get('gen_pass', ('unk',))
-        ok = nths(g) == [0] and 'from_utf8' in calls_in(g) and 'expect_primitive' in calls_in(g) and has_arg(g, 'match_id', lambda a: a == ('lit', 0)) \
-            and has_arg(g, 'match_class', lambda a: a == ('ctor', 'TagClass::Context', ()))
-        ctx.add('Y.passmod.genpasswd', '[0]', loc(B.root), ok, 'genPasswd is not the UTF-8 content of child 0 required to be [0] context primitive (RFC 3062)')
+        if 0 in cursor_reads_taken(o.st.pc, 0):
+            if g[0] == 'ctor' and g[1] == 'Some' and len(g[2]) == 1:
+                g = g[2][0]             # a field that can say "absent" says "present" here
+            ok = nths(g) == [0] and 'from_utf8' in calls_in(g) and 'expect_primitive' in calls_in(g) and has_arg(g, 'match_id', lambda a: a == ('lit', 0)) \
+                and has_arg(g, 'match_class', lambda a: a == ('ctor', 'TagClass::Context', ()))
+            ctx.add('Y.passmod.genpasswd', '[0]', loc(B.root), ok, 'genPasswd is not the UTF-8 content of child 0 required to be [0] context primitive (RFC 3062)')
+        else:
+            # the path on which the sequence is empty (Y.optional-absent demands that there is one): nothing was generated
+            ctx.add('Y.passmod.genpasswd', 'absent', loc(B.root), g in (('ctor', 'None', ()), ('lit', '')),
+                    'an empty PasswdModifyResponseValue does not decode to "no generated password": %s' % absx.fmt(g)[:80])
     ctx.floor('Y', 'PasswordModifyResp paths', len(outs), 1)
     for path, field in (('<ldap3::exop_impl::whoami::WhoAmIResp as ldap3::exop_impl::ExopParser>::parse', 'authzid'),
                         ('<ldap3::exop_impl::txn::StartTxnResp as ldap3::exop_impl::ExopParser>::parse', 'txn_id')):
@@ -488,6 +497,83 @@ def check_steps(ctx, rule, inst, where, steps, roles, changed, pred, what):
     ctx.add(rule, inst, where, not bad, '%s: %s' % (what, '; '.join(sorted(set(bad)))[:300]))
 
 UNIVERSAL_OTHERS = (2, 5, 10, 16)     # representatives of the universal tags that neither decoder assigns a meaning to
+
+# ---------------------------------------------------------------------------------------
+# OPTIONAL / DEFAULT components of a response value.
+#
+# Reference shapes of the response values of C19's list, as far as this rule needs them: the components of the value's SEQUENCE in
+# order, each REQ(uired) or OPT(ional; ASN.1 OPTIONAL or DEFAULT - BER may omit both, DER must omit a DEFAULT component that has
+# its default value).  A value whose optional components are absent is as well-formed as one that carries them, so the decoder
+# must have a returning path for it: for every number n of components that a well-formed value can have (the required ones plus
+# any number of the optional ones) there must be a path that returns the decoded struct on which no read of the component cursor
+# at a position >= n was taken to have yielded an element - which is what `next().expect(..)`, `next().unwrap()`, `let Some(..) =
+# next() else { panic }` all do to the path: the read yielding None flows into the panic and only "it was Some" continues.
+# A `for` / `while let` over the cursor has no such read: its None alternative is the loop's exit (what is then returned is the
+# business of the inductive rules Y.syncdone.* / Y.syncinfo.*).  The tags stay symbolic here, so this is a necessary condition.
+REQ, OPTC = 'required', 'optional'
+CPP = ' as ldap3::controls_impl::ControlParser>::parse'
+EPP = ' as ldap3::exop_impl::ExopParser>::parse'
+RESPONSE_REFS = [
+    # (name, decoder, cursor depth, CHOICE alternative or None, components, reference)
+    ('PagedResults', '<ldap3::controls_impl::paged_results::PagedResults' + CPP, 0, None, (('size', REQ), ('cookie', REQ)),
+     'RFC 2696: realSearchControlValue ::= SEQUENCE { size INTEGER (0..maxInt), cookie OCTET STRING }'),
+    ('SyncState', '<ldap3::controls_impl::content_sync::SyncState' + CPP, 0, None, (('state', REQ), ('entryUUID', REQ), ('cookie', OPTC)),
+     'RFC 4533 2.2: syncStateValue ::= SEQUENCE { state ENUMERATED, entryUUID syncUUID, cookie syncCookie OPTIONAL }'),
+    ('SyncDone', '<ldap3::controls_impl::content_sync::SyncDone' + CPP, 0, None, (('cookie', OPTC), ('refreshDeletes', OPTC)),
+     'RFC 4533 2.4: syncDoneValue ::= SEQUENCE { cookie syncCookie OPTIONAL, refreshDeletes BOOLEAN DEFAULT FALSE }'),
+    ('SyncInfo message', 'ldap3::controls_impl::content_sync::parse_syncinfo', 0, None, (('responseName', OPTC), ('responseValue', REQ)),
+     'RFC 4511 4.13: IntermediateResponse ::= [APPLICATION 25] SEQUENCE { responseName [0] LDAPOID OPTIONAL, responseValue [1] OCTET STRING OPTIONAL }; RFC 4533 2.5 puts the syncInfoValue into responseValue'),
+    ('SyncInfo refreshDelete', 'ldap3::controls_impl::content_sync::parse_syncinfo', 1, 1, (('cookie', OPTC), ('refreshDone', OPTC)),
+     'RFC 4533 2.5: refreshDelete [1] SEQUENCE { cookie syncCookie OPTIONAL, refreshDone BOOLEAN DEFAULT TRUE }'),
+    ('SyncInfo refreshPresent', 'ldap3::controls_impl::content_sync::parse_syncinfo', 1, 2, (('cookie', OPTC), ('refreshDone', OPTC)),
+     'RFC 4533 2.5: refreshPresent [2] SEQUENCE { cookie syncCookie OPTIONAL, refreshDone BOOLEAN DEFAULT TRUE }'),
+    ('SyncInfo syncIdSet', 'ldap3::controls_impl::content_sync::parse_syncinfo', 1, 3, (('cookie', OPTC), ('refreshDeletes', OPTC), ('syncUUIDs', REQ)),
+     'RFC 4533 2.5: syncIdSet [3] SEQUENCE { cookie syncCookie OPTIONAL, refreshDeletes BOOLEAN DEFAULT FALSE, syncUUIDs SET OF syncUUID }'),
+    ('ReadEntryResp', '<ldap3::controls_impl::read_entry::ReadEntryResp' + CPP, 0, None, (('objectName', REQ), ('attributes', REQ)),
+     'RFC 4527 3.1 / RFC 4511 4.5.2: SearchResultEntry ::= [APPLICATION 4] SEQUENCE { objectName LDAPDN, attributes PartialAttributeList }'),
+    ('PasswordModifyResp', '<ldap3::exop_impl::passmod::PasswordModifyResp' + EPP, 0, None, (('genPasswd', OPTC),),
+     'RFC 3062 2: PasswdModifyResponseValue ::= SEQUENCE { genPasswd [0] OCTET STRING OPTIONAL }'),
+    ('WhoAmIResp', '<ldap3::exop_impl::whoami::WhoAmIResp' + EPP, 0, None, (),
+     'RFC 4532 2.2: the response value is the authzId itself (no components)'),
+    ('StartTxnResp', '<ldap3::exop_impl::txn::StartTxnResp' + EPP, 0, None, (),
+     'RFC 5805 2.1: the response value is the transaction identifier itself (no components)'),
+]
+
+def cursor_reads_taken(pc, depth):
+    """positions of the reads of the component cursor `depth` sequence levels below the decoder's input that the path took to
+    have yielded an element"""
+    out = set()
+    for a, t in pc:
+        if t and a[0] == 'is' and a[2] == 'Some' and a[1][0] == 'nth' and elem_depth(a[1]) - 1 == depth:
+            out.add(a[1][3])
+    return out
+
+def check_optional_absent(ctx, f):
+    evaluated = 0
+    for name, path, depth, alt, comps, ref in RESPONSE_REFS:
+        B = hirq.Body(f, f.body(path))
+        ctx.analysed['bodies'].add(path)
+        m = len(comps)
+        r = len([c for c in comps if c[1] == REQ])
+        if r == m:
+            continue            # no OPTIONAL component: nothing can be absent from a well-formed value
+        hook = tag_hook({('parsed', 1): ('Context', alt)}) if alt is not None else None
+        I = absx.Interp(f, B, unroll=1, inline=inline_policy, field_hook=hook)
+        if hook is not None:
+            hook.interp = I
+        res = [o for o in I.run() if o.kind in ('val', 'ret') and o.val[0] in ('struct', 'ctor')
+               and (alt is None or o.val[1].startswith('SyncInfo::'))]
+        evaluated += 1
+        for n in range(r, m):
+            good = [o for o in res if not [k for k in cursor_reads_taken(o.st.pc, depth) if k >= n]]
+            forced = sorted({k for o in res for k in cursor_reads_taken(o.st.pc, depth) if k >= n})
+            opt = [c[0] for c in comps if c[1] == OPTC]
+            ctx.add('Y.optional-absent', '%s|%d of %d components' % (name, n, m), loc(B.root), bool(good),
+                    'a well-formed value with %d component(s) (optional: %s) has no decoding path: %s; %s'
+                    % (n, ', '.join(opt), 'every returning path takes the cursor read(s) at position(s) %s to have yielded an element (the read yielding None flows into expect / unwrap / a panic)' % forced
+                       if res else 'the decoder has no returning path at all', ref))
+    ctx.floor('Y', 'response values with an OPTIONAL component evaluated', evaluated, 7)
+
 
 def check_syncdone(ctx, f):
     """RFC 4533 2.4: syncDoneValue ::= SEQUENCE { cookie syncCookie OPTIONAL, refreshDeletes BOOLEAN DEFAULT FALSE }"""
